@@ -1474,7 +1474,16 @@ def _helper_style(ck, helper, fn=None):
     if len(calls) != 1:
         return None
     call = calls[0]
-    # which parameter of the helper becomes the stored number
+    # which parameter of the helper becomes the stored number: read on the normalised helper (keyword arguments handed over through a
+    # dict literal / `**kwargs`, copies of a parameter) -- the parameter list is the real one
+    try:
+        import copy as _copy
+        from contracts.c14_inline import propagate_param_copies
+        h2, _inl = inline_helpers(ck.mod, helper)
+        if h2 is not None and [a.arg for a in h2.args.args] == [a.arg for a in h.args.args]:
+            h = propagate_param_copies(_copy.deepcopy(h2))
+    except Exception:  # noqa  -- shape the normaliser does not handle: the helper as written
+        h = ck.mod.functions.get(helper)
     pnum = None
     for n in ast.walk(h):
         if isinstance(n, ast.Call) and isinstance(n.func, ast.Name):
